@@ -107,17 +107,21 @@ static size_t b_pfor_t(const uint64_t *a, size_t n, int t) { varintPFORMeta m; m
 static size_t b_pfor90(const uint64_t *a, size_t n) { return b_pfor_t(a, n, 90); }
 static size_t b_pfor95(const uint64_t *a, size_t n) { return b_pfor_t(a, n, 95); }
 static size_t b_pfor99(const uint64_t *a, size_t n) { return b_pfor_t(a, n, 99); }
+static size_t b_pfor100(const uint64_t *a, size_t n) { return b_pfor_t(a, n, 100); }
+static size_t b_pfor40(const uint64_t *a, size_t n) { return b_pfor_t(a, n, 40); }
 static size_t e_pfor_t(uint8_t *d, const uint64_t *a, size_t n, encinfo_t *i, int t) { POISON(&i->pforMeta, sizeof i->pforMeta); i->has_meta = true; return varintPFOREncode(d, a, (uint32_t)n, (uint32_t)t, &i->pforMeta); }
 static size_t e_pfor90(uint8_t *d, const uint64_t *a, size_t n, encinfo_t *i) { return e_pfor_t(d, a, n, i, 90); }
 static size_t e_pfor95(uint8_t *d, const uint64_t *a, size_t n, encinfo_t *i) { return e_pfor_t(d, a, n, i, 95); }
 static size_t e_pfor99(uint8_t *d, const uint64_t *a, size_t n, encinfo_t *i) { return e_pfor_t(d, a, n, i, 99); }
+static size_t e_pfor100(uint8_t *d, const uint64_t *a, size_t n, encinfo_t *i) { return e_pfor_t(d, a, n, i, 100); }
+static size_t e_pfor40(uint8_t *d, const uint64_t *a, size_t n, encinfo_t *i) { return e_pfor_t(d, a, n, i, 40); }
 /* decoder entry style 1: zeroed meta = "read the header" */
 static size_t d_pfor_hdr(const uint8_t *s, size_t nb, const encinfo_t *i, uint64_t *o, size_t n) { (void)nb; (void)i; (void)n; varintPFORMeta m; memset(&m, 0, sizeof m); return varintPFORDecode(s, o, &m); }
 /* style 2: the encoder's meta */
 static size_t d_pfor_meta(const uint8_t *s, size_t nb, const encinfo_t *i, uint64_t *o, size_t n) { (void)nb; (void)n; varintPFORMeta m = i->pforMeta; return varintPFORDecode(s, o, &m); }
 static bool g_pfor(const uint8_t *s, size_t nb, const encinfo_t *i, size_t n, size_t idx, uint64_t *v) { (void)nb; (void)n; *v = varintPFORGetAt(s, (uint32_t)idx, &i->pforMeta); return true; }
 /* random access through metadata re-read from the bytes */
-static bool g_pfor_readmeta(const uint8_t *s, size_t nb, const encinfo_t *i, size_t n, size_t idx, uint64_t *v) { (void)nb; (void)n; (void)i; varintPFORMeta m; memset(&m, 0, sizeof m); varintPFORReadMeta(s, &m); *v = varintPFORGetAt(s, (uint32_t)idx, &m); return true; }
+static bool g_pfor_readmeta(const uint8_t *s, size_t nb, const encinfo_t *i, size_t n, size_t idx, uint64_t *v) { (void)nb; (void)n; (void)i; varintPFORMeta m; memset(&m, (idx & 1) ? 0xFF : 0, sizeof m); /* ReadMeta fills what the stream holds; whatever the struct held before must not matter */ varintPFORReadMeta(s, &m); *v = varintPFORGetAt(s, (uint32_t)idx, &m); return true; }
 
 /* ---------------------------------------------------------------- group */
 static size_t b_group(const uint64_t *a, size_t n) { return varintGroupSize(a, (uint8_t)n); }
@@ -255,6 +259,9 @@ static const codec_t CODECS[] = {
     {.name = "pfor.90", .encname = "varintPFOREncode", .decname = "varintPFORDecode", .elembits = 64, .bound = b_pfor90, .boundname = "varintPFORSize", .encode = e_pfor90, .decode = d_pfor_hdr, .getat = g_pfor, .param = 90},
     {.name = "pfor.95", .encname = "varintPFOREncode", .decname = "varintPFORDecode", .elembits = 64, .bound = b_pfor95, .boundname = "varintPFORSize", .encode = e_pfor95, .decode = d_pfor_meta, .getat = g_pfor_readmeta, .param = 95},
     {.name = "pfor.99", .encname = "varintPFOREncode", .decname = "varintPFORDecode", .elembits = 64, .bound = b_pfor99, .boundname = "varintPFORSize", .encode = e_pfor99, .decode = d_pfor_hdr, .getat = g_pfor, .param = 99},
+    /* other legal percentile arguments: everything in the frame (no exceptions), and a percentile below one half */
+    {.name = "pfor.100", .encname = "varintPFOREncode", .decname = "varintPFORDecode", .elembits = 64, .bound = b_pfor100, .boundname = "varintPFORSize", .encode = e_pfor100, .decode = d_pfor_hdr, .getat = g_pfor_readmeta, .param = 100},
+    {.name = "pfor.40", .encname = "varintPFOREncode", .decname = "varintPFORDecode", .elembits = 64, .bound = b_pfor40, .boundname = "varintPFORSize", .encode = e_pfor40, .decode = d_pfor_meta, .getat = g_pfor, .param = 40},
     {.name = "group", .encname = "varintGroupEncode", .decname = "varintGroupDecode", .elembits = 64, .domain = DOM_GROUP, .maxlen = 64, .bound = b_group, .boundname = "varintGroupSize", .bound_exact = true, .encode = e_group, .decode = d_group, .getat = g_group, .decode_cap = c_group, .cap_may_refuse = true},
     {.name = "group.putget", .encname = "varintGroupPut", .decname = "varintGroupGet", .elembits = 64, .domain = DOM_GROUP, .maxlen = 64, .bound = b_group, .boundname = "varintGroupSize", .bound_exact = true, .encode = e_group_put, .decode = d_group_get, .getat = g_group},
     {.name = "dict", .encname = "varintDictEncode", .decname = "varintDictDecode", .elembits = 64, .domain = DOM_DICT, .bound = b_dict, .boundname = "varintDictEncodedSize", .bound_exact = true, .encode = e_dict, .decode = d_dict},
